@@ -34,7 +34,12 @@ pub fn scn(label: impl Into<String>, spec: &Arc<BenchSpec>, cmds: Vec<Cmd>) -> S
         spec: spec.clone(),
         cmds,
         label: label.into(),
+        prelude: None,
     }
+}
+pub fn with_prelude(mut sc: Scenario, pre: Scenario) -> Scenario {
+    sc.prelude = Some(Arc::new(pre));
+    sc
 }
 
 /// All sequences over `alphabet` of length 1..=depth.
@@ -685,7 +690,30 @@ pub fn c06(tier: &str) -> Vec<Family> {
     ] {
         sc.push(scn(name, &s, vec![pe(0, 1, 1), pe(0, 1, 2)]));
     }
-    vec![Family::new("stall_reports", &["report_exact"], sc).cap(cap)]
+    // A healthy simulation built on a thread on which an earlier simulation
+    // failed (panic with messages in flight, deadlock, message loss) or simply
+    // ran: its report must not depend on that history.
+    let bomb = NodeSpec::new("X", 4)
+        .script(1, vec![sendc(0, 2, 1), sendc(0, 2, 2), Op::Panic(PanicKind::Str)])
+        .script(3, vec![sendc(0, 2, 1), query(0, 4)])
+        .out(vec![to(1)])
+        .req(vec![to(0)]);
+    let sinkn = NodeSpec::new("Y", 4);
+    let orphan = NodeSpec::new("O", 4).placement(Placement::Orphan);
+    let pre_spec = Arc::new(BenchSpec::new(vec![bomb.clone(), sinkn.clone()]));
+    let mut bomb_o = bomb.clone();
+    bomb_o.outs = vec![vec![to(2)]];
+    let pre_spec_orphan = Arc::new(BenchSpec::new(vec![bomb_o, sinkn, orphan]));
+    let healthy = Arc::new(fan());
+    for (name, pre) in [
+        ("after_panic", scn("pre/panic", &pre_spec, vec![pe(0, 1, 0)])),
+        ("after_deadlock", scn("pre/deadlock", &pre_spec, vec![pe(0, 3, 0)])),
+        ("after_loss", scn("pre/loss", &pre_spec_orphan, vec![pe(0, 3, 0)])),
+        ("after_healthy", scn("pre/healthy", &healthy, vec![pe(0, 1, 5)])),
+    ] {
+        sc.push(with_prelude(scn(format!("history/{}", name), &healthy, vec![pe(0, 1, 1)]), pre));
+    }
+    vec![Family::new("stall_reports", &["report_exact", "error_class", "api_panic"], sc).cap(cap)]
 }
 
 // ---------------------------------------------------------------------------
@@ -1174,7 +1202,9 @@ pub fn c11(tier: &str) -> Vec<Family> {
     let sc_t = c11_scenarios(tier, &tspec, true);
     let n_t = if tier == "quick" { 6 } else { sc_t.len() };
     let sc_t: Vec<Scenario> = sc_t.into_iter().take(n_t).collect();
-    fams.push(Family::new("timeouts_st", TAGS_ERRORS, sc_t).cap(1));
+    // With a step timeout the single-threaded executor runs on a helper
+    // thread, where the pick hook is not installed: no controlled yields.
+    fams.push(Family::new("timeouts_st", TAGS_ERRORS, sc_t).uncontrolled(1, 1));
     let sc_t2 = c11_scenarios(tier, &tspec, true);
     let sc_t2: Vec<Scenario> = sc_t2.into_iter().take(n_t).collect();
     fams.push(Family::new("timeouts_mt", TAGS_ERRORS, sc_t2).uncontrolled(2, 1));
